@@ -135,8 +135,12 @@ func checkC13(c *Check) {
 			sep, isC := constString(jc.Common().Args[1])
 			return cfgGetter(jc.Common().Args[0], "GetScopes") && isC && sep == " ", "strings.Join(configured scopes, \" \")"
 		},
-		"state": func(v ssa.Value) (bool, string) { return resolveCell(stripConv(v)) == ssa.Value(m.GenState), "the issued state" },
-		"nonce": func(v ssa.Value) (bool, string) { return resolveCell(stripConv(v)) == ssa.Value(m.GenNonce), "the issued nonce" },
+		"state": func(v ssa.Value) (bool, string) {
+			return resolveCell(stripConv(v)) == ssa.Value(m.GenState), "the issued state"
+		},
+		"nonce": func(v ssa.Value) (bool, string) {
+			return resolveCell(stripConv(v)) == ssa.Value(m.GenNonce), "the issued nonce"
+		},
 		"code_challenge": func(v ssa.Value) (bool, string) {
 			cc, _, ok := asCall(resolveCell(stripConv(v)))
 			return ok && isCallTo(cc, "golang.org/x/oauth2.S256ChallengeFromVerifier") && resolveCell(stripConv(cc.Common().Args[0])) == ssa.Value(m.GenVerifier), "S256 challenge of the issued verifier"
@@ -326,7 +330,6 @@ func checkC13(c *Check) {
 	c.Obl(nLoc >= 3, "C13.R4", "redirect-count", "-", fmt.Sprintf("%d redirect sites (login, logout, callback)", nLoc), fmt.Sprintf("only %d redirect sites found (floor 3)", nLoc))
 	_ = token.ADD
 }
-
 
 // originsAre: every origin of v is the value want; parameters of own helper functions are followed to
 // the arguments at all their call sites (want itself may be a parameter and is not followed further).
